@@ -60,14 +60,23 @@ NOT_CARRIED = [
     "vertices / 4): exactly in the plane, strictly inside, farther than m from the edge lines when both cell sides "
     "exceed 2 m (C07_rect_own_centroid, C07_room_center_is_rect_centroid), hence with NO hypothesis on the other "
     "surfaces a patch never exchanges energy with a patch whose centroid is behind it or in its own plane "
-    "(C07_room_behind_hidden, C07_room_coplanar_hidden).  NOT proved: "
-    "that the centroids of a given room are in general position with respect to the OTHER patches' rectangles "
-    "-- a statement about its dimensions (inside a convex room the open segment between two centroids meets no "
-    "wall plane, and a centroid is half a cell away from the edge lines of the other cells of its wall, so the "
-    "clauses are expected to hold for every shoebox whose cell sides exceed twice the margin m; this is argued, "
-    "not formalised); the analogous statement for "
-    "point-to-patch visibility against the WALLS (room_point_vis: only the scan = conjunction form and the "
-    "per-rectangle theorem apply); rooms with walls that are not axis-aligned rectangles",
+    "(C07_room_behind_hidden, C07_room_coplanar_hidden); (iv) for GENUINE SHOEBOX ROOMS "
+    "(coq/theories/Proofs/FullShoebox.v; is_shoebox = literally the six walls, normals and up vectors of "
+    "sp.testing.shoebox_room_stub, translated to a corner (x0,y0,z0), with x0 < x1 etc. and 0 < patch size <= every "
+    "side; tolerances 0 <= epsilon < 1, 0 < eta, 2 epsilon < patch size, 2 eta < patch size -- every cell side is at "
+    "least the patch size) general position is a THEOREM: every pair of patch centroids is in general position "
+    "with respect to EVERY patch rectangle (C07_shoebox_general_position: a centroid lies in the plane of the cells "
+    "of its own wall at least half a cell from each of their edge lines, and strictly inside the five other wall "
+    "planes by at least half a cell; the open segment between two such points meets no wall plane), hence the "
+    "CLOSED FORM vis_sym i j = true <=> wall i <> wall j (C07_shoebox_visibility: two patches exchange energy iff "
+    "they lie on different walls), and from a point farther than epsilon and eta from the six wall planes every "
+    "patch is visible with the WALLS as blockers (C07_shoebox_point_visibility: room_point_vis = all True; "
+    "re-stated as C04_shoebox_all_patches_visible).  Non-vacuity: Instances/ShoeboxR.v (the reals satisfy all law "
+    "classes used, incl. floor and sqrt; the room shoebox_room_stub(4, 3, 2), patch size 1, source (2, 1.5, 1)).  "
+    "NOT proved: general position / a closed form for rooms that are not shoeboxes (non-convex rooms, interior "
+    "panels, walls that are not axis-aligned rectangles): there general position with respect to the OTHER "
+    "patches' rectangles stays a hypothesis of C07_room_visibility_geometric; point sources in or within the "
+    "tolerances of a wall plane",
     "the float gap: C07_symmetric is an identity of exact field arithmetic; on IEEE doubles the two "
     "evaluation orders can differ within rounding of a decision boundary (the harness evaluates both orders "
     "on general-position inputs and demands equal answers)",
